@@ -35,6 +35,18 @@ Fixpoint bucket_index (bounds : list Z) (v : Z) : nat :=
   | b :: r => if v <=? b then O else S (bucket_index r v)
   end.
 
+(** newHistValues: "b := slices.Clone(bounds); slices.Sort(b)" -- the aggregator sorts its private
+    copy, whatever reached it (a function View is not validated).  Modelled as insertion sort
+    (any sort gives the same list). *)
+Fixpoint insert_bound (x : Z) (l : list Z) : list Z :=
+  match l with
+  | [] => [x]
+  | y :: r => if x <=? y then x :: l else y :: insert_bound x r
+  end.
+
+Fixpoint sort_bounds (l : list Z) : list Z :=
+  match l with [] => [] | x :: r => insert_bound x (sort_bounds r) end.
+
 Fixpoint incr_nth (k : nat) (l : list N) : list N :=
   match l with
   | [] => []
@@ -61,6 +73,10 @@ Definition hist_measure (bounds : list Z) (st : option hist) (v : Z) : option hi
 
 Definition hist_run (bounds : list Z) (vs : list Z) : option hist :=
   fold_left (hist_measure bounds) vs None.
+
+(** newHistogram on an arbitrary configured boundary list. *)
+Definition hist_run_cfg (bounds : list Z) (vs : list Z) : option hist :=
+  hist_run (sort_bounds bounds) vs.
 
 (** ** Exponential histogram (exponential_histogram.go) *)
 
